@@ -1,7 +1,9 @@
 """C09 - macro expansion follows C11 6.10.3 and terminates (preprocess.c: hide sets, subst, expand_macro, preprocess2).
 
-Three legs on every generated input (a small C file of #define lines and invocation text):
+Four legs on every generated input (a small C file of #define lines and invocation text):
   tie      real `chibicc -E`  vs  Lean model `drv_c09 expand` (Model/PP.lean)   spellings, line structure, spacing, error kind
+  hide     real preprocess2() in-process (tools/harness/pp_harness.c #includes the snapshot's preprocess.c, ASan/UBSan)
+           vs  `drv_c09 expandh`: the HIDE SET of every output token, names in list order (what C09_terminates argues about)
   oracle   real `chibicc -E`  vs  `gcc -E -P` (independent 6.10.3 implementation) at token granularity
   spec     Lean `drv_c09 spec` (Spec/PPSpec.lean, 6.10.3 in the standard's phases)  vs  `gcc -E -P`
 A chibicc/gcc mismatch is a VIOLATION when gcc and the Lean specification agree with each other (two independent
@@ -230,6 +232,55 @@ def run_chibicc(ctx, d):
     except LexErr as x:
         return ('unlexable-output', str(x), o[:200])
 
+def build_harness(ctx):
+    """tools/harness/pp_harness.c against the snapshot's sources (static functions and struct Hideset reachable)"""
+    exe = os.path.join(ctx.scratch, 'pp_harness')
+    if os.path.exists(exe):
+        return exe
+    amalgam = ''
+    for f in ('unicode.c', 'tokenize.c', 'type.c', 'hashmap.c', 'strings.c', 'preprocess.c'):
+        t = open(os.path.join(ctx.snapshot, f), encoding='utf-8', errors='surrogateescape').read()
+        t = re.sub(r'^\s*#\s*include\s+"chibicc.h"\s*$', '', t, flags=re.M)
+        amalgam += f'#line 1 "{f}"\n{t}\n'
+    with open(os.path.join(ctx.scratch, 'pp_amalgam.c'), 'w', encoding='utf-8', errors='surrogateescape') as f:
+        f.write(amalgam)
+    rc, o, e = sh(['gcc', '-O1', '-g', '-w', '-fsanitize=address,undefined', '-fno-sanitize-recover=all',
+                   '-I', ctx.snapshot, '-I', ctx.scratch, os.path.join(VERIF, 'tools/harness/pp_harness.c'), '-o', exe], timeout=600)
+    if rc != 0:
+        raise BuildFailure('pp harness does not compile against the snapshot: ' + e[-1500:])
+    return exe
+
+def run_harness(ctx, dirs):
+    """one line per directory: ('ok', [(spelling, [names])]) | ('err',) | ('hang',) | ('crash', status)"""
+    if not dirs:
+        return []
+    exe = build_harness(ctx)
+    env = dict(os.environ, ASAN_OPTIONS='detect_leaks=0:exitcode=99:allocator_may_return_null=1', UBSAN_OPTIONS='exitcode=99')
+    out = []
+    for i in range(0, len(dirs), 64):
+        part = dirs[i:i + 64]
+        rc, o, e = sh([exe] + part, timeout=60 + 12 * len(part), env=env)
+        lines = o.splitlines()
+        lines += ['crash harness-rc=%s' % rc] * (len(part) - len(lines))
+        out += lines[:len(part)]
+    return [parse_hide(l) for l in out]
+
+def parse_hide(line):
+    w = line.split(' ')
+    if w[0] == 'ok':
+        toks = []
+        for x in w[1:]:
+            if not x:
+                continue
+            hx, _, hs = x.partition('@')
+            toks.append((bytes.fromhex(hx).decode('latin-1'), [n for n in hs.split(',') if n]))
+        return ('ok', toks)
+    if w[0] == 'err':
+        return ('err', w[1] if len(w) > 1 else '')
+    if w[0] == 'hang':
+        return ('hang',)
+    return ('crash', ' '.join(w[1:]))
+
 def run_gcc(ctx, d):
     rc, o, e = sh(['gcc', '-E', '-P', '-undef', 't.c'], cwd=d, timeout=30)
     if rc != 0:
@@ -267,21 +318,26 @@ def run_all(ctx, texts):
             toks = None
         cases.append({'text': text, 'dir': d, 'toks': toks})
     ctx._c09_n = start + len(texts)
+    live = [c for c in cases if c['toks'] is not None]
     with ThreadPoolExecutor(max_workers=max(2, NPROC)) as ex:
+        hfut = ex.submit(run_harness, ctx, [c['dir'] for c in live])
         cs = list(ex.map(lambda c: run_chibicc(ctx, c['dir']), cases))
         gs = list(ex.map(lambda c: run_gcc(ctx, c['dir']), cases))
-    live = [c for c in cases if c['toks'] is not None]
+        hs = hfut.result()
     inp = ''.join(f"{FUEL} {enc(c['toks'])}\n" for c in live)
     mo = ctx.driver('expand', inp).splitlines() if live else []
     so = ctx.driver('spec', inp).splitlines() if live else []
+    ho = ctx.driver('expandh', inp).splitlines() if live else []
     k = 0
     for c, C, G in zip(cases, cs, gs):
         c['C'], c['G'] = C, G
         if c['toks'] is None:
-            c['M'] = c['S'] = ('unlexable-input',)
+            c['M'] = c['S'] = c['MH'] = c['H'] = ('unlexable-input',)
         else:
             c['M'] = parse_driver(mo[k]) if k < len(mo) else ('bad', 'missing')
             c['S'] = parse_driver(so[k]) if k < len(so) else ('bad', 'missing')
+            c['MH'] = parse_hide(ho[k]) if k < len(ho) else ('crash', 'missing')
+            c['H'] = hs[k] if k < len(hs) else ('crash', 'missing')
             k += 1
         shutil.rmtree(c['dir'], ignore_errors=True)
     return cases
@@ -322,6 +378,33 @@ def tie_problem(c):
                 return f'spacing differs at token {i} ({a[1]}): chibicc prints space={a[3]}, model has_space={b[3]}'
         prev = b[1]
     return None
+
+def hide_problem(c):
+    """None, or how the hide sets of the model's output tokens differ from those of the real preprocess2 (in-process harness)"""
+    H, MH, M = c.get('H'), c.get('MH'), c['M']
+    if H is None or MH is None or H[0] == 'unlexable-input':
+        return None
+    if M[0] == 'err' and M[1] == 'unsupportedDirective':
+        return None
+    if H[0] == 'hang':
+        return None            # chibicc -E hangs as well: judged as a violation by the oracle leg
+    if H[0] == 'crash':
+        return None            # counted in process(): a sanitizer report or a harness limit, not a statement about hide sets
+    if H[0] == 'err' or MH[0] == 'err':
+        if H[0] == MH[0]:
+            return None
+        return f'in-process preprocess2: {H[0]}, model (expandh): {MH[0]} {MH[1] if MH[0] == "err" else ""}'
+    if MH[0] != 'ok':
+        return f'model driver (expandh) could not process the case: {MH}'
+    if [t[0] for t in H[1]] != [t[0] for t in MH[1]]:
+        return ('spellings differ (in-process harness vs model): ' + ' '.join(t[0] for t in H[1])[:200] + ' | ' + ' '.join(t[0] for t in MH[1])[:200])
+    for i, (a, b) in enumerate(zip(H[1], MH[1])):
+        if a[1] != b[1]:
+            return f'hide set of output token {i} ({a[0]}): preprocess.c has [{",".join(a[1])}], the model [{",".join(b[1])}]'
+    return None
+
+def tie_all(c):
+    return tie_problem(c) or hide_problem(c)
 
 def flat(res):
     return [t[1] for t in res[1]] if res[0] == 'ok' else None
@@ -657,6 +740,49 @@ def gen_recursion_shapes(rng, thorough):
     ]
     return out + fl
 
+def gen_fn_shapes(rng, thorough):
+    """the shapes the termination theorem C09_terminates has to cope with, on the real code: two function-like macros whose
+    replacement lists are every sequence of <= 2 tokens over {x, f, g, (, ), a} (unbalanced parentheses included, so that
+    an invocation started inside an expansion takes its arguments and its `)` from the text behind it: the hide set of the
+    expansion is then the INTERSECTION with the hide set of that `)`), against inputs that keep offering `(..)` groups,
+    macro names as arguments and spare `)`; and `##` forming macro names whose hide set is only that of the paste"""
+    out = []
+    alpha = ['x', 'f', 'g', '(', ')', 'a']
+    bodies = [()] + [(a,) for a in alpha] + [(a, b) for a in alpha for b in alpha]
+    if thorough:
+        bodies += [tuple(rng.choice(alpha) for _ in range(3)) for _ in range(60)]
+    inputs = ['f(1)(2)(3)', 'f(g)(1)(2) )', 'f(f)(g)(1)', 'f(g(1))(2) ) )', 'g f(1) (2) )', 'f((g)(1))(2)(3)', 'f(g f)(1)(2)(f) )',
+              'f(g(f(g)))(f)(g)(1) ) )', 'f(f g)(g f)(1)(2)']
+    def one(bf, bg, inp):
+        return f'#define f(x) {" ".join(bf)}\n#define g(x) {" ".join(bg)}\n{inp}\n'
+    if thorough:
+        for bf in bodies:
+            for bg in bodies:
+                for inp in inputs[:5] if len(bf) + len(bg) > 3 else inputs:
+                    out.append(one(bf, bg, inp))
+    else:
+        for _ in range(500):
+            out.append(one(rng.choice(bodies), rng.choice(bodies), rng.choice(inputs)))
+    # `##` makes a macro name; the pasted token starts with an empty hide set and gets only that of this expansion
+    palpha = ['x', 'f', 'g', '(', ')', 'cat(f,)', 'cat(,g)', 'cat(f,', 'cat(g,x)', 'cat(x,)', 'XY']
+    pinputs = ['f(1)(2) ) ) )', 'XY ) XY ) (1)', 'g(f)(g)(1) ) )', 'cat(f,)(1)(2) )', 'cat(X,Y) ) (1) )', 'f(XY ) )(1) )']
+    for _ in range(2500 if thorough else 250):
+        bf = [rng.choice(palpha) for _ in range(rng.choice([1, 2, 2, 3, 4]))]
+        bg = [rng.choice(palpha) for _ in range(rng.choice([0, 1, 2, 3]))]
+        bxy = rng.choice(['cat(X,Y', 'cat(f,', 'f cat(X,Y', 'cat(X,Y)', 'g (', 'cat(g,) ( XY'])
+        out.append(f'#define cat(x,y) x##y\n#define f(x) {" ".join(bf)}\n#define g(x) {" ".join(bg)}\n#define XY {bxy}\n'
+                   f'{rng.choice(pinputs)}\n')
+    out += [
+        '#define cat(x,y) x##y\n#define XY cat(X,Y\nXY ) XY )\n',
+        '#define cat(x,y) x##y\n#define XY cat(X,Y\n#define e(x) x\ne(XY )) XY ) e(e(XY )))\n',
+        '#define f(x) x g\n#define g(x) x f\n#define d(x) x x\nd(f(1)(2))(3)(4) d(f)(1)(2)(3)\n',
+        '#define d(x) x x\n#define f(x) d(d(x)) f\nf(f(1))(f(2))(3)\n',
+        '#define sw(a,b) b a\n#define f(x) g\n#define g(x) f\nsw((1), f)(2)(3) sw(g f, (1))(2)\n',
+        '#define f(x, ...) __VA_ARGS__ f x\nf(1, (2), g)(3, f)(4)\n',
+        '#define f(...) g __VA_OPT__((__VA_ARGS__) f)\n#define g(x) f\nf(1)(2)(3) f()(1)(2)\n',
+    ]
+    return out
+
 BATTERY = [
     # argument pre-expansion vs # / ## operands
     '#define M 1 2\n#define f(x) x #x\n#define g(x) #x x\nf(a M b) g(a M b) f(M b)\n',
@@ -783,7 +909,7 @@ def shrink(ctx, text, still_bad, budget=120):
 
 def judge_text(ctx, text):
     c = run_all(ctx, [text])[0]
-    return c, tie_problem(c), oracle_verdict(c)
+    return c, tie_all(c), oracle_verdict(c)
 
 # ------------------------------------------------------------------------------------------------ the check
 
@@ -798,15 +924,28 @@ def process(ctx, corr, tagged, stop_after=3):
             corr.nontrivial.add(key)
         if c['M'][0] == 'err' and c['M'][1] == 'unsupportedDirective':
             corr.count('skipped_unsupported_directive')
-        tp = tie_problem(c)
+        H = c.get('H', ('none',))
+        if H[0] == 'ok' and c.get('MH', ('none',))[0] == 'ok':
+            corr.count('hideset_cases_compared')
+            nh = sum(1 for t in H[1] if t[1])
+            if nh:
+                corr.count('hideset_cases_with_nonempty_hide_sets')
+                corr.count('hideset_tokens_with_nonempty_hide_set', nh)
+        elif H[0] == 'crash':
+            corr.count('harness_crash_or_sanitizer_report')
+            corr.extra.setdefault('harness_crashes', [])
+            if len(corr.extra['harness_crashes']) < 3:
+                corr.extra['harness_crashes'].append({'input': c['text'], 'what': H[1]})
+        tp = tie_all(c)
         if tp and len(corr.disagreements) < stop_after:
             def bad(t):
                 _, p, _ = judge_text(ctx, t)
                 return p is not None
             small = shrink(ctx, c['text'], bad)
             c2, p2, _ = judge_text(ctx, small)
-            corr.disagreements.append({'kind': 'model vs chibicc -E', 'what': p2 or tp, 'input': small, 'original_input': c['text'],
-                                       'chibicc': str(c2['C'])[:400], 'model': str(c2['M'])[:400], 'tag': tag})
+            corr.disagreements.append({'kind': 'model vs chibicc -E / in-process preprocess2', 'what': p2 or tp, 'input': small,
+                                       'original_input': c['text'], 'chibicc': str(c2['C'])[:400], 'model': str(c2['M'])[:400],
+                                       'harness': str(c2.get('H'))[:400], 'model_hide': str(c2.get('MH'))[:400], 'tag': tag})
         v = oracle_verdict(c)
         sg = spec_vs_gcc(c)
         if sg:
@@ -917,14 +1056,19 @@ def correspond(ctx, corr):
                  'pre-expansion vs #/## operands, line-spanning invocations, diagnostics, built-ins); (3) the grid of every combination of '
                  'empty/one-token/multi-token/macro/number operands around # and ## for 24 replacement-list shapes, variadics with 0/1/n '
                  'variable arguments, __VA_OPT__, GNU `, ## __VA_ARGS__`; (4) every mutual-recursion shape on <= 4 object-like macros '
-                 '(exhaustive for <= 2 (<= 3 thorough), sampled above) and 25 function-like recursion shapes; (5) seeded random definition '
-                 'sets x invocations.  Each case runs through chibicc -E, the Lean model, gcc -E -P and the Lean specification.  '
+                 '(exhaustive for <= 2 (<= 3 thorough), sampled above) and 25 function-like recursion shapes; (4b) two function-like '
+                 'macros with every replacement list of <= 2 tokens over {x f g ( ) a} (unbalanced parentheses: arguments and `)` taken '
+                 'from the text behind the expansion, i.e. the hide-set intersection rule) x 9 inputs that keep offering `(..)` groups '
+                 '(sampled in the quick tier, exhaustive in the thorough tier), and ## forming macro names; (5) seeded random definition '
+                 'sets x invocations.  Each case runs through chibicc -E, the real preprocess2 in-process (hide set of every output '
+                 'token), the Lean model, gcc -E -P and the Lean specification.  '
                  'non-trivial = a macro is defined and the case involves #, ##, a variadic, an invocation spanning lines, or a macro name '
                  'left unexpanded in the output (self-reference / function-like name without parenthesis); distinct = by source text.')
     tagged = corpus_cases()
     tagged += [('battery', t) for t in BATTERY]
     tagged += [('grid', t) for t in gen_operand_grid(ctx.thorough)]
     tagged += [('recursion', t) for t in gen_recursion_shapes(rng, ctx.thorough)]
+    tagged += [('fnshape', t) for t in gen_fn_shapes(rng, ctx.thorough)]
     nrand = 1500 if not ctx.thorough else 30000
     tagged += [('random', gen_random_case(rng)) for _ in range(nrand)]
     # the known finding's witness is replayed on every run
